@@ -9,6 +9,7 @@ from engine import pat
 from engine.util import own_nodes, calls_with_nodes, where, with_exprs
 
 RULES = {
+    "R-08.7": "room for the padding octets themselves: either the renderer bounds the padding it adds by the space left under the limit, or the reserve made before the sections are rendered grows with the block size - otherwise a truncated message plus its padding can exceed the limit and TooBig escapes although truncation was preferred",
     "R-08.6": "the effective limit: max_size 0 means the requester's advertised payload (request_payload) when known, else 65535, and is then clamped to [512, 65535] before the renderer is built; the OPT reserve counts every option the renderer will write (no option is skipped)",
     "R-08.1": "every write to the renderer's output happens inside `with self._track_size()` (header back-patches inside _temporarily_seek_to excepted)",
     "R-08.2": "_track_size rolls back to the start of the record set before raising TooBig; _rollback truncates and drops every compression entry at or beyond the rollback point",
@@ -199,6 +200,14 @@ def run(model, rep, tier):
               "the default limit is no longer (request_payload if non-zero else 65535): e.g. the message's OWN advertised payload limits a re-rendered TCP response", stmt="default-limit")
     rep.check(pat.has(twn, "if max_size < 512:\n    max_size = 512\nelif max_size > 65535:\n    max_size = 65535\n__r = dns.renderer.Renderer(self.id, self.flags, max_size, ...)"), "R-08.6", tw.qualname, where(tw, tw.node),
               "the limit is clamped to [512, 65535] and handed to the renderer", "the limit is not clamped to [512, 65535] immediately before the renderer is built with it", stmt="limit-clamp")
+    ao7 = model.func(f"{REN}.add_opt")
+    pad_arm = [n for n in ast.walk(ao7.node) if isinstance(n, ast.If) and any(a[0] == "pad" and a[1] == "truthy" for a in atoms(normalise_compare(n.test)))]
+    bounded = any(src(x) == "self.max_size" for n in pad_arm for b in n.body for x in ast.walk(b))
+    res_arm = [n for n in ast.walk(co.node) if isinstance(n, ast.If) and any(a[0] == "self.pad" and a[1] == "truthy" for a in atoms(normalise_compare(n.test)))]
+    reserved = any(isinstance(x, (ast.AugAssign, ast.Assign)) and any(src(y) == "self.pad" for y in ast.walk(x.value)) for n in res_arm for b in n.body for x in ast.walk(b))
+    rep.check(bounded or reserved, "R-08.7", ao7.qualname, where(ao7, pad_arm[0] if pad_arm else ao7.node), "the padding is bounded by the room left / reserved in advance",
+              "the padding octets are neither reserved before the sections are rendered (the OPT reserve adds only the 4-octet option header under `if self.pad`) nor bounded by self.max_size in add_opt: "
+              "after truncation the padded OPT can be up to block-1 octets larger than the room that was kept, and add_rrset raises TooBig although prefer_truncation was given", stmt="padding-bounded")
     ct = pat.canon_func(model.func("dns.message.Message._compute_tsig_reserve"), ["__f = io.BytesIO()"])
     t = " ".join(src(ct.node).split())
     rep.check("self.tsig.to_wire(f)" in t and "return len(f.getvalue())" in t, "R-08.4", ct.qualname, where(ct, ct.node), "TSIG reserve = uncompressed size of the TSIG RR", "TSIG reserve is no longer the uncompressed size", stmt="tsig-reserve")
